@@ -43,6 +43,13 @@ Theorem C09_constant_beyond_ends : forall x0 f0 r x,
 Proof. intros. split; [apply interp_left | apply interp_right]. Qed.
 Print Assumptions C09_constant_beyond_ends.
 
+(* for ANY table, chronological or not: the interpolated error (hence the shift) stays within the range of the tabulated errors *)
+Theorem C09_error_bounded : forall tab x (lo hi : Q), tab <> nil ->
+  Forall (fun p => (lo <= snd p)%Q /\ (snd p <= hi)%Q) tab ->
+  (lo <= interp tab x)%Q /\ (interp tab x <= hi)%Q.
+Proof. exact interp_bounded. Qed.
+Print Assumptions C09_error_bounded.
+
 (* position: the two rows interpolated and the weight are those of the fractional line number n - error / line period *)
 Theorem C09_fractional_line : forall rate_us tab l,
   (inject_Z (fl rate_us tab l) + wt rate_us tab l == inject_Z (fst l) - offset tab (snd l) / rate rate_us)%Q /\
